@@ -137,18 +137,18 @@ def run_reader(cid, source, mode="yield", limit=None, close=True, reader=None):
             if isinstance(item, Exception):
                 events.append(("err", harness.describe_error(item), item))
             else:
-                events.append(("row", list(item)))
+                events.append(("row", item))  # the object itself: read only after the iteration has finished, as list(reader.rows()) does
     except errors.CutplaceError as error:
         raised = harness.describe_error(error)
     except Exception as error:
         raised = {"type": type(error).__name__, "text": repr(error), "foreign": True}
-    # re-read the locations of yielded errors after iteration has finished (guards copy.copy(location))
+    # rows and the locations of yielded errors are read after the iteration has finished (guards copy.copy(location) and row buffers reused between yields)
     final_events = []
     for event in events:
         if event[0] == "err":
             final_events.append(["err", event[1], harness.describe_error(event[2])])
         else:
-            final_events.append(["row", event[1]])
+            final_events.append(["row", list(event[1])])
     observation = {"events": final_events, "raised": raised, "accepted": reader.accepted_rows_count, "rejected": reader.rejected_rows_count}
     observation["snapshot"] = (reader.accepted_rows_count, reader.rejected_rows_count, reader.location.line if reader.location is not None else None, check_snapshot(cid))
     if close:
